@@ -96,6 +96,8 @@ TextT      == [k |-> "text"]
 CommentT   == [k |-> "comment"]
 NamespaceT == [k |-> "namespace"]
 PIT(n)     == [k |-> "pi", name |-> n]                     \* "*" = no name argument
+(* n is the PITarget the test asks for, i.e. fn:normalize-space(N) of the argument N (2.5.5.3): the
+   binding renders N as NCName and as string literals with leading / trailing blanks, tab, CR, LF *)
 NoElem     == [k |-> "none"]
 (* element(name, ty) / element(name, ty?): name "*" = wildcard, ty "*" = no type argument *)
 ElemT(n, ty, nil) == [k |-> "element", name |-> n, ty |-> ty, nil |-> nil]
